@@ -1,3 +1,4 @@
+import Psa.Eval
 import Psa.Fixtures.F0
 import Psa.Fixtures.F1
 import Psa.Fixtures.F2
@@ -46,6 +47,20 @@ theorem C20_fixtures_agree : ∀ f ∈ allFixtures, fixtureOk f = true := by
   · exact List.all_eq_true.mp Fixtures.chunk14_ok f h
   · exact List.all_eq_true.mp Fixtures.chunk15_ok f h
 
+/-- … and in a process whose user-namespace switch has any history of calls that ends with it switched off (the process starts
+    with it off): the fixtures are judged with what is in force, which is the default configuration again -/
+theorem C20_after_switch_history (calls : List Bool) : ∀ f ∈ allFixtures, fixtureOkWith (switchAfter false (calls ++ [false])) f = true := by
+  intro f hf
+  rw [switchAfter_append]
+  exact C20_fixtures_agree f hf
+
+/-- the history matters: with the switch left ON the published procMount fail fixture is no longer rejected (it sets
+    hostUsers: false) — which is why "switched off again" must really switch it off -/
+example :
+    let f : Fixture := { level := .baseline, minor := 0, check := b!"procMount", pass := false,
+                         pod := { hostUsers := some false, containers := [{ name := b!"c", sc := some { procMount := some b!"Unmasked" } }] } }
+    fixtureOkWith false f = true ∧ fixtureOkWith true f = false := by decide +kernel
+
 /-- the defaulting clause is needed: the published pass fixture "implicit empty dir" (a volume with no source) is rejected
     by the raw evaluator at restricted and accepted once the API server's defaulting (no source ⇒ emptyDir) is applied -/
 example :
@@ -58,6 +73,7 @@ example : Fixtures.chunk0.length ≥ 30 ∧ Fixtures.chunk0.any (·.pass) = true
   refine ⟨by decide, ?_, ?_⟩ <;> rfl
 
 #print axioms C20_fixtures_agree
+#print axioms C20_after_switch_history
 #print axioms Fixtures.chunk0_ok
 #print axioms Fixtures.chunk1_ok
 #print axioms Fixtures.chunk2_ok
